@@ -24,7 +24,7 @@ from ..tlaparse import parse_simulation_file, parse_state, to_json
 L1_CLAUSES = {"StartedOnlyWhenAll", "StopAtMostOnce", "StoppedOnlyWhenAll", "ExternalUntouched", "NoStall", "FaultReported", "TeardownStopsAll", "ExternalAnswered"}
 # actions of Mechanic.tla that must be reachable in the model (NRecvFailure and the assertion branches are not: they need
 # duplicated or out-of-state acknowledgements, which the modelled environment never produces)
-REQUIRED_ACTIONS = ["MRecvStartEngine", "MRecvReset", "MWakeup", "MRecvFailureD", "MRecvStopEngine", "MRecvExit", "DRecvStartEngine", "DRecvConv", "DRecvExit", "RcStop", "RcReset", "RcTeardown", "RemoteJoins", "RemoteLeaves"]
+REQUIRED_ACTIONS = ["MRecvStartEngine", "MRecvReset", "MWakeup", "MRecvFailureD", "MRecvStopEngine", "MRecvExit", "DRecvStartEngine", "DRecvConv", "DRecvExit", "RcStop", "RcReset", "RcTeardown", "RemoteJoins", "RemoteLeaves"]  # NodeProcess is an \\E-disjunct of Next, covered by unreached_disjuncts
 _RE_NEXT_COV = re.compile(r"^<Next line \d+, col \d+ to line \d+, col \d+ of module Mechanic \((\d+) \d+ \d+ \d+\)>: (\d+):(\d+)", re.M)
 
 
@@ -39,7 +39,7 @@ def unreached_disjuncts(res, workdir):
         seen += 1
         if int(m.group(3)) == 0 and "NRecvFailure" not in line:
             missing.append(line.strip())
-    if seen < 9:
+    if seen < 10:
         raise tlc.MachineryError("coverage output of TLC lists only %d disjuncts of Next" % seen)
     return missing
 
@@ -132,19 +132,20 @@ def random_scenario(rnd):
 
 
 def signature_of(clauses, st, scn):
-    return {"clauses": sorted(clauses), "fault": st["env"]["fault"], "external": bool(scn["ext"])}
+    procs = sorted({x["proc"] for x in st["nd"] if x["proc"] != "alive"})
+    return {"clauses": sorted(clauses), "fault": st["env"]["fault"], "external": bool(scn["ext"]), "node_process": procs}
 
 
 def run_traces(ctx, out, jobs, label, chunk=80):
     """jobs: dict(scn, up, script, seed, fault_prob[, strict]). Runs the real actors, validates with TLC."""
     traces = []
     index = {}
-    stats = {"followed": 0, "skipped": 0, "livelock": 0, "fault": {"none": 0, "create": 0, "launch": 0, "leave": 0}, "ext": 0, "preserve": 0, "events": 0, "answered_started": 0, "answered_failed": 0, "stopped": 0}
+    stats = {"followed": 0, "skipped": 0, "livelock": 0, "fault": {"none": 0, "create": 0, "launch": 0, "leave": 0}, "ext": 0, "preserve": 0, "events": 0, "answered_started": 0, "answered_failed": 0, "stopped": 0, "proc": {"early": 0, "late": 0, "stubborn": 0}, "proc_stopped": {"early": 0, "late": 0, "stubborn": 0}}
     for n, job in enumerate(jobs):
         tid = "%s-%d" % (label, n)
         tr = mechtrace.TracedMech(job["scn"], job["up"])
         try:
-            f, s = tr.run([tuple(x) for x in job["script"]], random.Random(job["seed"] * 7919 + 17), fault_prob=job.get("fault_prob", 0.0), strict=job.get("strict", False))
+            f, s = tr.run([tuple(x) for x in job["script"]], random.Random(job["seed"] * 7919 + 17), fault_prob=job.get("fault_prob", 0.0), strict=job.get("strict", False), proc_prob=job.get("proc_prob", 0.0))
             stats["followed"] += f
             stats["skipped"] += s
             if tr.livelock:
@@ -154,6 +155,10 @@ def run_traces(ctx, out, jobs, label, chunk=80):
             stats["answered_failed"] += "BenchmarkFailure" in box
             stats["stopped"] += "EngineStopped" in box
             stats["fault"][tr.w.fault] += 1
+            for x in tr.w.nd:
+                if x["proc"] != "alive":
+                    stats["proc"][x["proc"]] += 1
+                    stats["proc_stopped"][x["proc"]] += x["stops"] > 0
             stats["ext"] += bool(job["scn"]["ext"])
             stats["preserve"] += bool(job["scn"]["preserve"])
             trace = tr.trace(tid)
@@ -209,7 +214,7 @@ def _merge(total, st):
 def run(ctx, out):
     out.rule = (
         "case = (target-host list with external/preserve flags, remote daemons initially present, sequence of scheduling decisions: "
-        "message deliveries incl. the outcome of each host's start, wake-ups, race-control actions, daemons joining/leaving) executed on "
+        "message deliveries incl. the outcome of each host's start, wake-ups, race-control actions, daemons joining/leaving, node processes dying / ignoring SIGTERM) executed on "
         "the real actors; distinct by hash of scenario+decision sequence; non-trivial = more than 8 decisions. Sources: TLC -simulate "
         "behaviours of Mechanic.tla, TLC counterexamples of the pinned model variant (trap schedules), seeded random schedules over "
         "random target lists."
@@ -223,8 +228,10 @@ def run(ctx, out):
         "a remote daemon's departure is explored only while the Dispatcher is registered for convention updates and after that daemon's "
         "node actors were created (the window the `not remoteAdded` branch exists for); departures after StartNodes was dispatched or "
         "before the join was processed depend on thespian internals that SimActorSystem does not reproduce",
-        "supplier / provisioner / launcher / race store are recording stubs (the launcher subclasses the real ProcessLauncher, "
-        "provisioner.cleanup and Mechanic are real); a start failure on a host happens before any of its nodes is up (in create() or in "
+        "supplier / provisioner / race store are recording stubs; the launcher is the real ProcessLauncher with only _start_node replaced "
+        "(real cluster.Node, real telemetry.Telemetry with one recording device): the real ProcessLauncher.stop runs against a fake psutil "
+        "whose process table the environment controls (alive, already gone, dying while terminated, ignoring SIGTERM); "
+        "provisioner.cleanup and Mechanic are real; a start failure on a host happens before any of its nodes is up (in create() or in "
         "launcher.start), at most one fault per run; race control behaves like racecontrol.BenchmarkActor (StopEngine only after "
         "EngineStarted, ActorExitRequest after a failure or after EngineStopped)",
         "<= 3 hosts (coordinator host + 2 remote daemons) x 2 ports, target lists of <= 3 entries in the model, <= 4 in random runs",
@@ -256,7 +263,7 @@ def run(ctx, out):
     rjobs = []
     for i in range(150 if ctx.quick else 2500):
         scn, up = random_scenario(rnd)
-        rjobs.append({"scn": scn, "up": up, "script": [], "seed": ctx.seed + 5000 + i, "fault_prob": [0.0, 0.1, 0.3][i % 3]})
+        rjobs.append({"scn": scn, "up": up, "script": [], "seed": ctx.seed + 5000 + i, "fault_prob": [0.0, 0.1, 0.3][i % 3], "proc_prob": [0.0, 0.15, 0.3, 0.15][i % 4]})
     rstats, rindex = run_traces(ctx, out, rjobs, "rnd")
     _merge(total, rstats)
     out.extra["runs"] = len(jobs) + len(rjobs)
@@ -269,6 +276,11 @@ def run(ctx, out):
     out.extra["runs_benchmark_failure"] = total["answered_failed"]
     out.extra["runs_engine_stopped"] = total["stopped"]
     out.extra["runs_livelock"] = total["livelock"]
+    out.extra["node_processes_not_alive"] = total["proc"]
+    out.extra["node_processes_not_alive_and_stopped"] = total["proc_stopped"]
+    for kind in ("early", "late", "stubborn"):
+        if total["proc_stopped"].get(kind, 0) == 0:
+            out.vacuous.append("process:" + kind)
     for kind in ("create", "launch", "leave"):
         if total["fault"].get(kind, 0) == 0:
             out.vacuous.append("fault:" + kind)
@@ -279,8 +291,8 @@ def run(ctx, out):
     some = rindex[sorted(rindex)[1]]
     out.sample({"scenario": some[0]["scn"], "up": some[0]["up"], "decisions": [(e["ev"], e["a"], e["b"]) for e in some[1]["events"]][:40]})
     out.note(
-        "leg C2S: %d runs, %d events, %d traces accepted by TLC, %d schedule steps followed, %d not enabled; faults %s"
-        % (len(jobs) + len(rjobs), total["events"], out.traces_validated, total["followed"], total["skipped"], total["fault"])
+        "leg C2S: %d runs, %d events, %d traces accepted by TLC, %d schedule steps followed, %d not enabled; faults %s; node processes not alive when stopped %s"
+        % (len(jobs) + len(rjobs), total["events"], out.traces_validated, total["followed"], total["skipped"], total["fault"], total["proc_stopped"])
     )
 
 
